@@ -98,8 +98,9 @@ func runC05(c *Ctx) {
 		var w c05Witness
 		json.Unmarshal(c.Replay.Case, &w)
 		// schedule dependent: re-run the same history (same seed => same scripts) several times
-		if w.Params.Profile == "" { // a mid-frame stall witness
+		if w.Params.Profile == "" { // a mid-frame stall / udp fallback witness
 			c05Stall(c)
+			c05Fallback(c)
 			return
 		}
 		if w.Params.Profile == "exhaustion" {
@@ -112,6 +113,10 @@ func runC05(c *Ctx) {
 		return
 	}
 
+	c05Fallback(c) // on its own: a message with two owners corrupts whatever else runs in the process
+	if c.ViolationCount() > 0 {
+		return
+	}
 	nHist := c.N(200, 10000)
 	var exhaustDone sync.WaitGroup
 	// the exhaustion run is CPU bound and long; overlap it with the (mostly sleeping) histories
@@ -700,7 +705,7 @@ func c05Rcp(rcp []scripted.Query) string {
 // c05Exhaust: 70 000 sequential + 70 000 concurrent exchanges through ONE
 // transport against an instant echo server.
 func c05Exhaust(c *Ctx, framing string) {
-	p := c05Params{Idx: -1, Framing: framing, MaxConc: 4096, Conc: 64, NEx: 140000, Profile: "exhaustion"}
+	p := c05Params{Idx: -1, Framing: framing, MaxConc: 4096, Conc: 64, NEx: 210000, Profile: "exhaustion"}
 	if framing == "udp" {
 		p.Conc = 24 // paced: loopback UDP drops under bursts
 	}
@@ -720,7 +725,7 @@ func c05Exhaust(c *Ctx, framing string) {
 	}
 	defer srv.Close()
 	defer tr.Close()
-	const nSeq, nPar = 70000, 70000
+	const nSeq, nPar = 70000, 140000 // the concurrent phase alone exceeds what the connections open at its start have left
 	exs := make([]*c05Ex, nSeq+nPar)
 	r := gen.New(c.Seed, "c05-exhaust-"+framing, 0)
 	for i := range exs {
